@@ -29,10 +29,10 @@ type rgProv struct {
 	deps []int
 }
 
-func rgKey(i int) NodeKey                              { return NodeKey{Type: rgTypes[i]} }
-func (p *rgProv) GetType() reflect.Type                { return rgTypes[p.id] }
-func (p *rgProv) GetKey() any                          { return nil }
-func (p *rgProv) GetGroup() string                     { return "" }
+func rgKey(i int) NodeKey               { return NodeKey{Type: rgTypes[i]} }
+func (p *rgProv) GetType() reflect.Type { return rgTypes[p.id] }
+func (p *rgProv) GetKey() any           { return nil }
+func (p *rgProv) GetGroup() string      { return "" }
 func (p *rgProv) GetDependencies() []*reflection.Dependency {
 	out := make([]*reflection.Dependency, 0, len(p.deps))
 	for _, d := range p.deps {
